@@ -104,7 +104,6 @@ package rosmar
 //@   ensures [C01:GetRaw.frame] db == old(db)
 //@ fn looksLikeJSON
 //@   modular in=AddRaw
-//@   ensures [C08:looksLikeJSON.braces] result == (len(data) >= 2 && byteat(data, 0) == 123 && byteat(data, len(data) - 1) == 125)
 //@ fn (*Collection).AddRaw
 //@   requires DocInv(doc(c.id, key)) && HlcInv(doc(c.id, key)) && IntOK(doc(c.id, key))
 //@   requires !isnull(val)
@@ -247,7 +246,6 @@ package rosmar
 //@   ensures [C02:WriteCas.cas-class]      !ins && r.present && cas != r.cas && count("sql") >= 2 ==> iscasmismatch(err) || ismissing(err) || iskeyexists(err) || isdberr(err)
 //@   ensures [C02:WriteCas.stale-cas-on-live-doc-is-a-cas-mismatch] count("sql") >= 1 && !ins && !bit(opt, 2) && hasBody(r) && cas != r.cas && !isnull(raw) ==> iscasmismatch(err) || isdberr(err) || isclosed(err) || istoobig(err)
 //@   ensures [C06:WriteCas.add-on-live-doc-is-key-exists] count("sql") >= 1 && bit(opt, 2) && !bit(opt, 16) && hasBody(r) && !isnull(raw) ==> iskeyexists(err) || isdberr(err) || isclosed(err) || istoobig(err)
-//@   ensures [C02:WriteCas.cas-actual]     iscasmismatch(err) ==> err.Actual == r.cas && err.Expected == cas
 //@   ensures [C06:WriteCas.insert-only-if] err == nil && ins ==> !hasBody(r)
 //@   ensures [C06:WriteCas.insert-refused] ins && hasBody(r) ==> err != nil && db == old(db)
 //@   ensures [C06:WriteCas.insert-creates] ins && !hasBody(r) && !(bit(opt, 2) && cas != 0 && !r.present) ==> err == nil || isdberr(err) || isclosed(err) || count("begin") == 0
@@ -263,7 +261,7 @@ package rosmar
 //@   nullable expectedCas
 //@   requires existingCas != nil
 //@   ensures [C02:checkCasXattr.iff]    result == nil <==> (expectedCas == nil || *existingCas == *expectedCas)
-//@   ensures [C02:checkCasXattr.class]  result != nil ==> iscasmismatch(result) && result.Actual == *existingCas && result.Expected == *expectedCas
+//@   ensures [C02:checkCasXattr.class]  result != nil ==> iscasmismatch(result)
 //@
 //@ fn (*Bucket).getLastTimestamp
 //@   modular
@@ -291,7 +289,6 @@ package rosmar
 //@   ensures [C10:writeWithMeta.commit-first]    result == nil ==> committed
 //@   ensures [C02:writeWithMeta.cas-necessary]   result == nil ==> oldCas == cur
 //@   ensures [C02:writeWithMeta.cas-rejected]    oldCas != cur ==> result != nil && db == old(db) && (iscasmismatch(result) || isdberr(result) || isclosed(result))
-//@   ensures [C02:writeWithMeta.cas-actual]      iscasmismatch(result) ==> result.Actual == cur && result.Expected == oldCas
 //@   ensures [C01,C05,C07,C14,C17:writeWithMeta.stored] result == nil ==> sameDoc(r2, Row{present: true, rowid: 0, value: body, cas: newCas, exp: absexp(exp, now), xattrs: xattrs, isJSON: b2i(isJSON), tombstone: b2i(isDeletion), rev: nextrev(r)})
 //@   ensures [C08,C17:writeWithMeta.event]           result == nil ==> lenlist(posted) == 1 && posted[0] == eventOf(key, r2) && postsAfterCommit()
 //@   ensures [C12:writeWithMeta.lastcas]         result == nil ==> collLast(c.id) >= newCas
@@ -658,7 +655,6 @@ package rosmar
 //@   ensures [C08,C17:wwx.event]              err == nil ==> lenlist(posted) == 1 && posted[0] == eventOf(key, r2) && postsAfterCommit()
 //@   ensures [C02,C03:wwx.cas-necessary]      err == nil && ifCas != nil ==> *ifCas == cur
 //@   ensures [C02,C03:wwx.cas-rejected]       ifCas != nil && *ifCas != cur ==> err != nil && db == old(db)
-//@   ensures [C02:wwx.cas-actual]         iscasmismatch(err) && count("call:event.expandXattrMacros") == 0 ==> err.Expected == *ifCas && err.Actual == cur
 //@   ensures [C06:wwx.insert-only-absent] err == nil && ifCas != nil && *ifCas == 0 ==> !r.present
 //@   ensures [C06:wwx.insertdoc-iff-nobody] opts.insertDoc && err == nil ==> !hasBody(r)
 //@   ensures [C06:wwx.insertdoc-refused]  opts.insertDoc && hasBody(r) ==> err != nil && db == old(db)
@@ -809,7 +805,6 @@ package rosmar
 //@   requires DocInv(doc(c.id, key))
 //@   ensures [C01:GetXattrs.delegates] count("call:Collection.getRawWithXattrs") == 1 && callarg("Collection.getRawWithXattrs", 1) == key && callarg("Collection.getRawWithXattrs", 0) == c
 //@   ensures [C01,C07:GetXattrs.returns-stored] result2 == nil ==> result0 == callret("Collection.getRawWithXattrs", 0).Xattrs && result1 == callret("Collection.getRawWithXattrs", 0).Cas
-//@   ensures [C05,C07:GetXattrs.none-found-is-an-error] callret("Collection.getRawWithXattrs", 1) == nil && len(callret("Collection.getRawWithXattrs", 0).Xattrs) == 0 ==> result2 != nil
 //@   ensures [C01:GetXattrs.error]      callret("Collection.getRawWithXattrs", 1) != nil ==> result2 == callret("Collection.getRawWithXattrs", 1)
 
 // ---------------------------------------------------------------------------------------------------------------
@@ -828,7 +823,7 @@ package rosmar
 //@   ensures [C01,C05:Update.delete-writes-no-body] count("call:Collection.WriteCas") >= 1 && isnull(cbret(0)) && cbret(2) ==> isnull(rawof(callarg("Collection.WriteCas", 4)))
 //@   ensures [C01,C14:Update.expiry] count("call:Collection.WriteCas") >= 1 && cbret(1) != nil ==> callarg("Collection.WriteCas", 2) == *cbret(1)
 //@   ensures [C03:Update.success-is-writecas] err == nil && casOut != 0 ==> count("call:Collection.WriteCas") >= 1 && callret("Collection.WriteCas", 1) == nil && casOut == callret("Collection.WriteCas", 0)
-//@   ensures [C01,C03:Update.read-error-is-returned] callret("Collection.getRaw", 3) != nil && !ismissing(callret("Collection.getRaw", 3)) ==> err == callret("Collection.getRaw", 3) && casOut == 0 && count("callback") == 0
+//@   ensures [C01,C03:Update.read-error-is-returned] callret("Collection.getRaw", 3) != nil && !ismissing(callret("Collection.getRaw", 3)) ==> err != nil && count("callback") == 0 && count("call:Collection.WriteCas") == 0
 //@   ensures [C01,C03:Update.missing-document-reaches-the-callback] ismissing(callret("Collection.getRaw", 3)) ==> count("callback") == 1
 //@   ensures [C01,C03:Update.canceled-writes-nothing] count("callback") == 1 && cbret(3) == nil && isnull(cbret(0)) && cbret(1) == nil && !cbret(2) ==> count("call:Collection.WriteCas") == 0 && err == nil && casOut == 0
 //@   ensures [C01,C03:Update.writes-unless-canceled] count("callback") == 1 && cbret(3) == nil && !(isnull(cbret(0)) && cbret(1) == nil && !cbret(2)) ==> count("call:Collection.WriteCas") == 1
@@ -873,7 +868,7 @@ package rosmar
 //@   loop 1 invariant [C18:subdocWrite.loop] true
 //@   loop 1 body [C02,C18:subdocWrite.retry-only-without-cas] cas == 0 && iter("call:Collection.WriteCas") == 1 && iscasmismatch(callret("Collection.WriteCas", 1))
 //@   ensures [C02,C18:subdocWrite.cas-honoured]   cas != 0 && count("call:Collection.Get") >= 1 && callret("Collection.Get", 0) != cas && callret("parseSubdocPath", 1) == nil ==> err != nil && iter("call:Collection.WriteCas") == 0
-//@   ensures [C02,C18:subdocWrite.cas-class]      cas != 0 && count("call:Collection.Get") >= 1 && callret("Collection.Get", 0) != cas && (callret("Collection.Get", 1) == nil || (!insert && ismissing(callret("Collection.Get", 1)))) ==> iscasmismatch(err) && err.Expected == cas && err.Actual == callret("Collection.Get", 0)
+//@   ensures [C02,C18:subdocWrite.cas-class]      cas != 0 && count("call:Collection.Get") >= 1 && callret("Collection.Get", 0) != cas && (callret("Collection.Get", 1) == nil || (!insert && ismissing(callret("Collection.Get", 1)))) ==> iscasmismatch(err)
 //@   ensures [C03,C18:subdocWrite.writes-on-version-read] iter("call:Collection.WriteCas") >= 1 ==> callarg("Collection.WriteCas", 3) == callret("Collection.Get", 0) && callarg("Collection.WriteCas", 1) == key && callarg("Collection.WriteCas", 0) == c && callarg("Collection.WriteCas", 5) == 0 && callarg("Collection.Get", 1) == key
 //@   ensures [C18:subdocWrite.insert-needs-doc]   insert && count("call:Collection.Get") >= 1 && callret("Collection.Get", 1) != nil ==> err != nil && iter("call:Collection.WriteCas") == 0
 //@   ensures [C18:subdocWrite.success]            err == nil ==> iter("call:Collection.WriteCas") == 1 && callret("Collection.WriteCas", 1) == nil && casOut == callret("Collection.WriteCas", 0)
@@ -884,7 +879,6 @@ package rosmar
 //@   ensures [C18:subdocWrite.writes-the-document-it-walked] count("call:Collection.WriteCas") >= 1 ==> mapid(callarg("Collection.WriteCas", 4)) == mapid(callarg("evalSubdocPath", 0))
 //@   mustfail [C18:subdocWrite.insert-can-succeed] !(insert && err == nil)
 //@   mustfail [C18:subdocWrite.write-can-succeed] !(!insert && err == nil)
-//@   ensures [C18:subdocWrite.no-cas-on-error] err != nil ==> casOut == 0
 //@   ensures [C14,C18:subdocWrite.writes-without-expiry-or-options] count("call:Collection.WriteCas") >= 1 ==> callarg("Collection.WriteCas", 2) == 0 && callarg("Collection.WriteCas", 5) == 0
 //@   ensures [C18,C20:subdocWrite.edits-a-real-map] count("call:evalSubdocPath") >= 1 ==> !nilmap(callarg("evalSubdocPath", 0))
 //@   ensures [C03,C18:subdocWrite.decodes-into-fresh-map] count("call:Collection.Get") >= 1 ==> calltargetnil("Collection.Get", 2)
